@@ -59,7 +59,7 @@ func literals() []literal {
 			return &AbMsg2{Union: &AbMsg2_ULeaf{ULeaf: &AbLeaf{Req: &s}}, Other: &AbMsg2_OInt64{OInt64: 0}, OptMsg: &AbMsg2{Union: &AbMsg2_UFloat{UFloat: 0}}, OptOther: &AbMsg3{FSint32: -7, REnum: []AbEnum{1}},
 				ReqMsg: &AbLeaf{}, RepMsg: []*AbMsg2{{}, {OptBool: &t}}}
 		}, msg(fld(17, []model.Val{{M: msg(fld(103, u(0)))}}), fld(18, []model.Val{{M: msg(fld(3, i(-7)), fld(34, u(1)))}}), fld(31, []model.Val{{M: msg()}}),
-			fld(68, []model.Val{{M: msg()}, {M: msg(fld(1, u(1)))}}), fld(108, []model.Val{{M: msg(fld(1, bs(s)))}}), fld(110, u(0)))},
+			fld(68, []model.Val{{M: msg()}, {M: msg(fld(1, u(1)))}}), fld(98, u(0)), fld(108, []model.Val{{M: msg(fld(1, bs(s)))}}))},
 		{"ab2-unknown", "AbMsg2", func() any {
 			return &AbMsg2{OptPlain: &n32, XXX_unrecognized: []byte{0xf8, 0x7f, 0x01}}
 		}, &model.Msg{Fields: []model.Field{fld(21, i(-7))}, Unknown: []byte{0xf8, 0x7f, 0x01}}},
